@@ -242,6 +242,25 @@ CHECKS = {
         technique=TECH + "seeded two-sided assignment/swap/delete histories with gc, drop and "
                          "restart events against a pointer-following model",
         design="4 (C11)"),
+    "C13": dict(
+        level="exploration",
+        text=("Seeded generated class hierarchies (base on HasTraits / HasStrictTraits / "
+              "HasPrivateTraits plus a subclass, each declaring 0-5 explicit traits and 0-4 "
+              "overlapping wildcard prefixes over nine policies: Int/Str/Float/Any, ReadOnly, "
+              "Constant, Event, Disallow, Python) and histories of get / set / del on 2-4 "
+              "instances of base and subclass over 22 names matching zero, one or several "
+              "prefixes, exact names and leading underscores, with add_trait / remove_trait and "
+              "gc. The order in which instances and classes first resolve a name is part of the "
+              "schedule (resolved prefix traits are cached on the class). A rule model (instance "
+              "trait, else class trait by MRO, else longest matching prefix, else class default) "
+              "predicts the outcome class and value of every access, including write-once, "
+              "constant, write-only and disallowed policies. Sampling, not proof."),
+        note=("add_trait is applied to names the instance has not accessed under the previous "
+              "rule; pickle restart is left to C14 (what survives a pickle would blur this "
+              "oracle)."),
+        technique=TECH + "seeded class hierarchies and access histories over several instances "
+                         "(resolution order as schedule) against a rule model",
+        design="4 (C13)"),
 }
 
 NOT_APPLICABLE = {
